@@ -550,7 +550,7 @@ static void labels_case(int a0, int a1, int a2, int b0, int b1) {
   ASSERT(all_set, "C04(EXISTS): a combination with an unknown label");
 }
 #define LABELS_ENTRY(nm, a0, a1, a2, b0, b1) extern "C" void nm() { labels_case(a0, a1, a2, b0, b1); ASSERT(0, "WITNESS: end of " #nm " reachable"); }
-LABELS_ENTRY(h_labels_fwd, K_GOTO, K_MARK, K_NONE, K_GOTO, K_NONE)     // p: GOTO x; y: ...      q: GOTO z
+LABELS_ENTRY(h_labels_fwd, K_GOTO, K_MARK, K_NONE, K_MARK, K_NONE)     // p: GOTO x; y: ...      q: z: ...
 LABELS_ENTRY(h_labels_back, K_MARK, K_IF, K_NONE, K_MARK, K_GOTO)      // p: x: IF .. GOTO y     q: z: GOTO w
 LABELS_ENTRY(h_labels_two, K_IF, K_GOTO, K_MARK, K_MARK, K_NONE)       // p: IF .. GOTO x; GOTO y; z: ...   q: w: ...
 LABELS_ENTRY(h_labels_mix, K_GOTO, K_MARK, K_MARK, K_IF, K_MARK)       // p: GOTO x; y: z: ...   q: IF .. GOTO w; v: ...
